@@ -367,6 +367,8 @@ def compare(I, op, a, b):
 
 
 def contains(I, container, item):
+    if isinstance(container, VOpt):
+        container = _unopt(I, container)
     if isinstance(container, (VStr, VToken)):
         used('str.__contains__')
         return z3.Contains(container.t, strterm(item))
@@ -872,8 +874,15 @@ def external(I, e, name, spec):
     ghost trace, result havoced per its declared type, may raise the declared exceptions"""
     from .interp import Raised
     args = [I.eval(a) for a in e.args]
-    kwargs = {kw.arg: I.eval(kw.value) for kw in e.keywords}
+    kwargs = {kw.arg: I.eval(kw.value) for kw in e.keywords if kw.arg is not None}
     short = spec.get('as', name.split('.')[-1])
+    if spec.get('function'):
+        # a pure observation of the environment (e.g. os.path.exists): the same arguments give
+        # the same answer for the duration of the call under verification
+        rty = parse_ty(spec['result'])
+        f = z3.Function('env_' + short, *([sort_of(ty_of(a)) if not isinstance(a, VToken) else z3.StringSort()
+                                           for a in args] + [sort_of(rty)]))
+        return wrap(rty, f(*[unwrap(ty_of(a), a) if not isinstance(a, VToken) else a.s for a in args]))
     tr = I.ghost.setdefault('ext_trace', [])
     rz = spec.get('raises', [])
     outcome = I.path.choose(1 + len(rz), 'ext:%s' % short) if rz else 0
@@ -1544,6 +1553,11 @@ def strip_model(I, s, cre, which, key='ws'):
     string denote the same term; the axioms are instantiated at each use."""
     F = z3.Function('str_%s_%s' % (which, key), z3.StringSort(), z3.StringSort())
     r = F(s)
+    done = I.ghost.setdefault('strip_axioms', set())
+    ck = (which, key, s.get_id())
+    if ck in done:
+        return r           # the facts about this application are already on the path
+    done.add(ck)
     pre = z3.String(fresh_name('strip_pre'))
     post = z3.String(fresh_name('strip_post'))
     star = z3.Star(cre)
